@@ -168,6 +168,8 @@ func buildViewCert(v ViewSpec, nb time.Time, offsetForm bool) (*x509.Certificate
 // ---- one framework operation -----------------------------------------------------
 
 type FwOp struct {
+	PreView  *ViewSpec // if set: an object first linted with this view is overwritten in place and linted again
+	NoNext   bool      // OCSP: response without nextUpdate (target is Go's zero time)
 	ViewLine string
 	Kind   string
 	View   ViewSpec
@@ -274,6 +276,21 @@ func runFwOp(o *FwOp, rng *RNG, objs *fwObjects) (out string) {
 			objs.certCache[key] = c
 		}
 		o.ViewLine = parsedView(o.View, c)
+		if o.PreView != nil {
+			// same pointer, different content: lint, overwrite the struct in place, lint again
+			pre, _, err := buildViewCert(*o.PreView, o.Target, false)
+			if err != nil {
+				return "builderr:" + err.Error()
+			}
+			func() {
+				defer func() { recover() }()
+				zlint.LintCertificateEx(pre, reg)
+			}()
+			*pre = *c
+			rec.log = map[string]*strings.Builder{}
+			rs = zlint.LintCertificateEx(pre, reg)
+			break
+		}
 		rs = zlint.LintCertificateEx(c, reg)
 	case "crl":
 		c := objs.crlCache[o.Target.Unix()]
@@ -287,6 +304,17 @@ func runFwOp(o *FwOp, rng *RNG, objs *fwObjects) (out string) {
 		}
 		rs = zlint.LintRevocationListEx(c, reg)
 	case "ocsp":
+		if o.NoNext {
+			c, _, err := buildOCSP(time.Unix(fwE+5, 0).UTC(), time.Time{}, time.Unix(fwE+6, 0).UTC())
+			if err != nil {
+				return "builderr:" + err.Error()
+			}
+			if !c.NextUpdate.IsZero() {
+				return "builderr:nextUpdate not absent"
+			}
+			rs = zlint.LintOcspResponseEx(c, reg)
+			break
+		}
 		c := objs.ocspCache[o.Target.Unix()]
 		if c == nil {
 			var err error
@@ -442,6 +470,24 @@ func subFramework(outDir string, seed uint64, tier string) {
 				single("cert", v, wins[1], src, "n", "T", "s6", false)
 			}
 		}
+	}
+	// OCSP responses without nextUpdate: the window is still read from (zero) NextUpdate
+	for _, w := range wins {
+		for _, body := range []string{"s3", "s6"} {
+			l := LintSpec{Name: "e_scripted_one", Source: "RFC6960", Eff: w.eff, Ineff: w.ineff, Cfg: "n", App: "T", Body: body}
+			rep.distinctKey("nonext|" + w.label + body)
+			rep.count("ocsp-no-nextupdate")
+			emit(FwOp{Kind: "ocsp", NoNext: true, Target: time.Time{}, Lints: []LintSpec{l}})
+		}
+	}
+	// the same object pointer linted twice with different content in between
+	for i := 0; i < len(fwViews)*4; i++ {
+		a, b := fwViews[rng.Intn(len(fwViews))], fwViews[i%len(fwViews)]
+		src := fwSources[rng.Intn(3)]
+		l := LintSpec{Name: "e_scripted_one", Source: src, Eff: "Z", Ineff: "Z", Cfg: "n", App: "T", Body: "s6"}
+		rep.distinctKey("reuse|" + a.String() + "|" + b.String() + src)
+		rep.count("reuse-pointer")
+		emit(FwOp{Kind: "cert", View: b, PreView: &a, Target: time.Unix(fwE, 0).UTC(), Lints: []LintSpec{l}})
 	}
 	// multi-lint registries: mixes of statuses, duplicate-free names, 1..40 lints
 	multi := 400
